@@ -4,15 +4,18 @@
    Reading guide.  [stats wt l] is the SegStats record the code builds from one block of events
    (add = AddSegStatsNums/Str/UNIXTime/LatestEarliestVal), [merge]/[mergeo] = SegStats.Merge /
    MergeSegStats, [merge_blocks wt bs] = the blocks/segments bs merged in that order, [finalize] =
-   the GetSeg* readers.  [exactv wt l s] (AggProofs) says every field of s equals its mathematical
-   definition over the event list l: count = number of events that have the field, min/max = THE
-   least/greatest value ([is_best]; numbers before strings, numbers by value, strings bytewise),
-   numeric count, sum = the exact sum ([sum_ok]; float iff a summand is a float), values/list = the
-   values in order, earliest/latest = the value at the least/greatest timestamp.
-   Guards (exact, boolean-checkable on the data):
+   the GetSeg* readers.  The model follows the FIXED code (fixes/C04-merge-isnumeric: Merge ORs
+   IsNumeric; fixes/C04-latest-earliest-skip-missing: the time stats of a column only advance on
+   records that have the column); the behaviour before the fixes is kept as [merge_prefix] /
+   [add_prefix] with the C04_prefix_* documentation theorems at the end of this section.
+   [exactv wt l s] (AggProofs) says every field of s equals its mathematical definition over the
+   event list l: IsNumeric iff some value is numeric, count = number of events that have the field,
+   min/max = THE least/greatest value ([is_best]; numbers before strings, numbers by value, strings
+   bytewise), numeric count, sum = the exact sum ([sum_ok]; float iff a summand is a float),
+   values/list = the values in order, earliest/latest = the value at the least/greatest timestamp
+   among the events that have the field.
+   Guards that remain (exact, boolean-checkable on the data):
      fits l            : the absolute values of the integer summands add up to < 2^63 (int64 sums)
-     lead_num wt bs = has_num (concat bs) : the first block that creates the record has a numeric
-                         value iff any block has (IsNumeric is never merged)
      NoDup timestamps  : only for earliest/latest (with equal timestamps any of them is correct)
    Floats are exact dyadic rationals in the model (float64 rounding not modelled). *)
 From Coq Require Import List ZArith QArith Permutation.
@@ -44,7 +47,7 @@ Proof. exact sum_merge_assoc_refuted. Qed.
 Print Assumptions C04_sum_merge_assoc_refuted.
 
 (* merge_comm: records of two disjoint blocks merge to the same record in either order
-   (up to the order inside values()/list()) *)
+   (up to the order inside values()/list()); [req] includes IsNumeric *)
 Theorem C04_merge_comm : forall wt l1 l2 a b,
   exactv wt l1 a -> exactv wt l2 b -> fits (l1 ++ l2) ->
   (wt = true -> NoDup (map fst (l1 ++ l2))) ->
@@ -55,59 +58,39 @@ Print Assumptions C04_merge_comm.
 Theorem C04_merge_assoc : forall wt l1 l2 l3 a b c,
   exactv wt l1 a -> exactv wt l2 b -> exactv wt l3 c -> fits (l1 ++ l2 ++ l3) ->
   (wt = true -> NoDup (map fst (l1 ++ l2 ++ l3))) ->
-  req (merge (merge a b) c) (merge a (merge b c)) /\
-  isnum (merge (merge a b) c) = isnum (merge a (merge b c)).
+  req (merge (merge a b) c) (merge a (merge b c)).
 Proof. exact merge_assoc_reachable. Qed.
 Print Assumptions C04_merge_assoc.
 
-(* merge_identity: the absent map entry is a two-sided identity; the empty record is a right
-   identity for everything and a left identity for everything except IsNumeric *)
+(* merge_identity: the absent map entry and the empty record are two-sided identities
+   ([sameF] includes IsNumeric; before fixes/C04-merge-isnumeric the left identity lost it) *)
 Theorem C04_merge_identity : forall wt l x,
   mergeo None (Some x) = Some x /\ mergeo (Some x) None = Some x /\
-  sameF (merge x new_for_str) x /\ isnum (merge x new_for_str) = isnum x /\
+  sameF (merge x new_for_str) x /\
   (exactv wt l x -> sameF (merge new_for_str x) x).
 Proof. exact merge_identity. Qed.
 Print Assumptions C04_merge_identity.
-
-(* FULL STATEMENT (false): isnum (merge new_for_str y) = isnum y. *)
-Theorem C04_merge_identity_isnum_refuted : exists y, isnum (merge new_for_str y) <> isnum y.
-Proof. exact merge_identity_isnum_refuted. Qed.
-Print Assumptions C04_merge_identity_isnum_refuted.
 
 (* ---------- one pass = merged blocks ---------- *)
 
 (* fold_add_app: the record of l1 ++ l2 is the merge of the records of l1 and l2 *)
 Theorem C04_fold_add_app_guarded : forall wt l1 l2,
   fits (l1 ++ l2) -> (wt = true -> NoDup (map fst (l1 ++ l2))) ->
-  req (view (stats wt (l1 ++ l2))) (view (mergeo (stats wt l1) (stats wt l2))) /\
-  isnum (view (stats wt (l1 ++ l2))) = has_num (l1 ++ l2) /\
-  isnum (view (mergeo (stats wt l1) (stats wt l2))) = lead_num wt [l1; l2].
+  req (view (stats wt (l1 ++ l2))) (view (mergeo (stats wt l1) (stats wt l2))).
 Proof. exact fold_add_app_guarded. Qed.
 Print Assumptions C04_fold_add_app_guarded.
 
-(* FULL STATEMENT (false without the guards): for every list l of matched events and all block
-   lists bs, bs' whose concatenations are permutations of l,
+(* segmentation_irrelevant.  FULL STATEMENT: for every list l of matched events and all block lists
+   bs, bs' whose concatenations are permutations of l,
      res_eq (finalize (merge_blocks wt bs)) (finalize (merge_blocks wt bs')).
-   segmentation_irrelevant, guarded: *)
+   With the IsNumeric fix only the int64 guard (and distinct timestamps for earliest/latest) is left: *)
 Theorem C04_segmentation_irrelevant_guarded : forall wt l bs bs',
   Permutation (concat bs) l -> Permutation (concat bs') l ->
   fits l -> (wt = true -> NoDup (map fst l)) ->
-  lead_num wt bs = has_num l -> lead_num wt bs' = has_num l ->
   res_eq (finalize (merge_blocks wt bs)) (finalize (merge_blocks wt bs')) /\
   res_eq (finalize (merge_blocks wt bs)) (finalize (stats wt l)).
 Proof. exact segmentation_irrelevant_guarded. Qed.
 Print Assumptions C04_segmentation_irrelevant_guarded.
-
-(* without the IsNumeric guard: the same two blocks in the other order give sum 0 / no avg *)
-Theorem C04_segmentation_isnum_refuted :
-  exists bs bs', Permutation bs bs' /\ fits (concat bs) /\
-    lead_num false bs <> has_num (concat bs) /\
-    r_sum (finalize (merge_blocks false bs)) = SInt 0 /\
-    r_avg (finalize (merge_blocks false bs)) = None /\
-    r_sum (finalize (merge_blocks false bs')) = SInt 12 /\
-    r_avg (finalize (merge_blocks false bs')) = Some (Qdiv (inject_Z 12) (inject_Z 2)).
-Proof. exact segmentation_isnum_refuted. Qed.
-Print Assumptions C04_segmentation_isnum_refuted.
 
 (* without the int64 guard: the sum is not the sum, and depends on the cut *)
 Theorem C04_sum_overflow_refuted :
@@ -124,10 +107,10 @@ Proof. exact sum_overflow_segmentation_refuted. Qed.
 Print Assumptions C04_sum_overflow_segmentation_refuted.
 
 (* ---------- stats_exact ---------- *)
-(* FULL STATEMENT: the conclusion below for ALL bs.  Proved under the two guards. *)
+(* FULL STATEMENT: the conclusion below for ALL bs.  Proved under the int64 guard. *)
 Theorem C04_stats_exact_guarded : forall wt bs,
   let l := concat bs in
-  fits l -> lead_num wt bs = has_num l ->
+  fits l ->
   let r := finalize (merge_blocks wt bs) in
   r_count r = Z.of_nat (length (items l)) /\
   (if has_num l then sum_ok (nums l) (r_sum r) else r_sum r = SInt 0) /\
@@ -136,10 +119,12 @@ Theorem C04_stats_exact_guarded : forall wt bs,
    else r_avg r = None) /\
   is_best true (vals l) (r_min r) /\ is_best false (vals l) (r_max r) /\
   r_values r = items l /\ r_list r = items l /\
-  (wt = true -> l <> [] ->
+  (wt = true -> pres l <> [] ->
      exists te ve tl vl,
-       In (te, ve) l /\ (forall e, In e l -> te <= fst e) /\ r_earliest r = item_of ve /\
-       In (tl, vl) l /\ (forall e, In e l -> fst e <= tl) /\ r_latest r = item_of vl).
+       In (te, ve) l /\ present ve = true /\
+       (forall e, In e l -> present (snd e) = true -> te <= fst e) /\ r_earliest r = item_of ve /\
+       In (tl, vl) l /\ present vl = true /\
+       (forall e, In e l -> present (snd e) = true -> fst e <= tl) /\ r_latest r = item_of vl).
 Proof. exact result_exact_guarded. Qed.
 Print Assumptions C04_stats_exact_guarded.
 
@@ -151,12 +136,54 @@ Theorem C04_avg_is_sum_div_count : forall o a,
 Proof. exact avg_is_sum_div_count. Qed.
 Print Assumptions C04_avg_is_sum_div_count.
 
+(* non-vacuity: a strings-only block merged first, events without the field, int / float /
+   numeric string, distinct timestamps *)
 Theorem C04_guards_satisfiable :
-  let bs := [[(0, MInt 5); (1, MStr sx)]; [(2, MFlt 2560); (3, MAbs)]; [(4, MNumStr [55%N] 7168)]] in
-  fits (concat bs) /\ NoDup (map fst (concat bs)) /\ lead_num true bs = has_num (concat bs) /\
-  r_sum (finalize (merge_blocks true bs)) = SFlt (5 * 1024 + 2560 + 7168).
+  let bs := [[(1, MStr sx)]; [(0, MInt 5); (2, MFlt 2560); (3, MAbs)]; [(4, MNumStr [55%N] 7168); (5, MAbs)]] in
+  fits (concat bs) /\ NoDup (map fst (concat bs)) /\
+  r_sum (finalize (merge_blocks true bs)) = SFlt (5 * 1024 + 2560 + 7168) /\
+  r_latest (finalize (merge_blocks true bs)) = Some (INum 7168).
 Proof. exact guards_satisfiable. Qed.
 Print Assumptions C04_guards_satisfiable.
+
+(* ---------- PRE-FIX documentation (about [merge_prefix] / [add_prefix]; no longer what is checked
+   against the code; the harness keeps the generator streams, a regression is class
+   sum_avg_zero_when_first_merged_record_non_numeric / earliest_latest_from_event_without_field) ---- *)
+
+(* before fixes/C04-merge-isnumeric: Merge kept IsNumeric of the receiver.  Same as the fixed merge
+   when both sides agree on IsNumeric ... *)
+Theorem C04_prefix_merge_guarded : forall a b, isnum a = isnum b -> merge_prefix a b = merge a b.
+Proof. exact prefix_merge_guarded. Qed.
+Print Assumptions C04_prefix_merge_guarded.
+
+(* ... otherwise the same two blocks gave sum 0 / no avg in one order and 12 in the other *)
+Theorem C04_prefix_segmentation_isnum_refuted :
+  exists bs bs', Permutation bs bs' /\ fits (concat bs) /\
+    r_sum (finalize (merge_blocks_prefix false bs)) = SInt 0 /\
+    r_avg (finalize (merge_blocks_prefix false bs)) = None /\
+    r_sum (finalize (merge_blocks_prefix false bs')) = SInt 12 /\
+    r_sum (finalize (merge_blocks false bs)) = SInt 12 /\
+    r_avg (finalize (merge_blocks false bs)) = Some (Qdiv (inject_Z 12) (inject_Z 2)).
+Proof. exact prefix_segmentation_isnum_refuted. Qed.
+Print Assumptions C04_prefix_segmentation_isnum_refuted.
+
+Theorem C04_prefix_merge_identity_isnum_refuted : exists y, isnum (merge_prefix new_for_str y) <> isnum y.
+Proof. exact prefix_merge_identity_isnum_refuted. Qed.
+Print Assumptions C04_prefix_merge_identity_isnum_refuted.
+
+(* before fixes/C04-latest-earliest-skip-missing: the time functions ran on every matched record.
+   Same as the fixed add on an event that has the field ... *)
+Theorem C04_prefix_add_guarded : forall wt o e, present (snd e) = true -> add_prefix wt o e = add wt o e.
+Proof. exact prefix_add_guarded. Qed.
+Print Assumptions C04_prefix_add_guarded.
+
+(* ... otherwise: f=5, f=7, (no f) in time order gave latest(f) = nothing (printed 0) instead of 7 *)
+Theorem C04_prefix_latest_from_event_without_field_refuted :
+  exists l, NoDup (map fst l) /\
+    r_latest (finalize (stats_prefix true l)) = None /\
+    r_latest (finalize (stats true l)) = Some (INum (7 * 1024)).
+Proof. exact prefix_latest_from_event_without_field_refuted. Qed.
+Print Assumptions C04_prefix_latest_from_event_without_field_refuted.
 
 (* ---------- groups ---------- *)
 Theorem C04_groups_once : forall (K : Type) (keqb : K -> K -> bool),
